@@ -243,3 +243,86 @@ func c18DvDeletes(r *Run, rng *Rng, mul int) {
 		c18DvDel(r, rules, del)
 	}
 }
+
+// ---------------------------------------------------------------- dvb: the record through the builder methods
+
+// c18Dvb: `dvb <allowBlank> <showDropDown> <rs|ri|list|sqref> <type> <operator> <a> <b> <errstyle|~> <hex title> <hex msg>
+// <input 0|1> <hex title> <hex msg> <hex sqref>` — model: XlModel.DvRecord
+func c18Dvb(r *Run, ab, dd bool, form string, t, o int, a, b string, errStyle int, et, em string, in bool, it, im, sq string) {
+	bit := map[bool]string{false: "0", true: "1"}
+	es := "~"
+	if errStyle >= 0 {
+		es = fmt.Sprint(errStyle)
+	}
+	ea, eb := hx(a), hx(b)
+	dv := xl.NewDataValidation(ab)
+	dv.Sqref, dv.ShowDropDown = sq, dd
+	switch form {
+	case "rs":
+		_ = dv.SetRange(a, b, xl.DataValidationType(t), xl.DataValidationOperator(o))
+	case "ri":
+		ea, eb = a, b
+		var x, y int
+		fmt.Sscan(a, &x)
+		fmt.Sscan(b, &y)
+		_ = dv.SetRange(x, y, xl.DataValidationType(t), xl.DataValidationOperator(o))
+	case "list":
+		keys := strings.Split(a, "\x00")
+		hs := make([]string, len(keys))
+		for i, k := range keys {
+			hs[i] = hx(k)
+		}
+		ea = strings.Join(hs, ",")
+		_ = dv.SetDropList(keys)
+	case "sqref":
+		dv.SetSqrefDropList(a)
+	}
+	if errStyle >= 0 {
+		dv.SetError(xl.DataValidationErrorStyle(errStyle), et, em)
+	}
+	if in {
+		dv.SetInput(it, im)
+	}
+	line := fmt.Sprintf("dvb %s %s %s %d %d %s %s %s %s %s %s %s %s %s", bit[ab], bit[dd], form, t, o, ea, eb, es, hx(et), hx(em), bit[in], hx(it), hx(im), hx(sq))
+	f := c18DvBook()
+	defer f.Close()
+	res := "ERR"
+	if err := f.AddDataValidation(c18Sheet, dv); err == nil {
+		if got, e := f.GetDataValidations(c18Sheet); e == nil && len(got) == 1 {
+			res = "ok " + c18Show(c18Map(*got[0]))
+		}
+	}
+	r.Op(line, res)
+	r.Case(line, true)
+	r.Stat("dvb:" + form)
+}
+
+func c18Dvbs(r *Run, rng *Rng, mul int) {
+	strs := []string{"A1", "LEN(A1)<5", `A1&"x"`, `"a""b"`, `"txt"`, "A1&amp;B1", "", "'P&L'!$A$1", ">", `"`}
+	for i := 0; i < 200*mul; i++ {
+		form := rng.Pick([]string{"rs", "rs", "ri", "list", "sqref"})
+		t, o := rng.Range(0, 9), rng.Range(0, 9)
+		a, b := strs[rng.Intn(len(strs))], strs[rng.Intn(len(strs))]
+		switch form {
+		case "ri":
+			a, b = fmt.Sprint(rng.Range(-9, 1000)), fmt.Sprint(c18Ints[rng.Intn(len(c18Ints))])
+		case "list":
+			n := rng.Range(1, 3)
+			ks := make([]string, n)
+			for j := range ks {
+				ks[j] = c18EscStr(rng)
+			}
+			if rng.Chance(4) {
+				ks[0] = strings.Repeat("k", 256)
+			}
+			a, b = strings.Join(ks, "\x00"), ""
+		case "sqref":
+			a, b = rng.Pick(append(c18DvSources, `"q""q"`)), ""
+		}
+		es := -1
+		if rng.Bool() {
+			es = rng.Range(0, 4)
+		}
+		c18Dvb(r, rng.Bool(), rng.Bool(), form, t, o, a, b, es, c18Str(rng), c18Str(rng), rng.Bool(), c18Str(rng), c18Str(rng), rng.Pick([]string{"A1:B2", "D1", "H1:H2 J1:J2", ""}))
+	}
+}
